@@ -77,8 +77,15 @@ func c08History(ctx *Ctx, pol string, h int) bool {
 	ac := &asyncCounter{}
 	var mu sync.Mutex
 	var events []evictEvent
+	// In every third history the asynchronous cache update (and the eviction it may start) that a write's
+	// setValues step spawns is let run to completion before the same command's setExpiry step begins: a
+	// schedule the code allows at any time, since that goroutine takes the store lock only.
+	holdExpiry := h%3 == 1
 	setHook(func(name string, args ...interface{}) {
 		ac.hook(name, args...)
+		if holdExpiry && name == "ks.setExpiry" {
+			ac.wait(2 * time.Second)
+		}
 		if name == "evict.mem" && len(args) >= 6 {
 			e := evictEvent{}
 			e.Policy, _ = args[0].(string)
@@ -154,7 +161,7 @@ func c08History(ctx *Ctx, pol string, h int) bool {
 				return fail("crash", "SET crashed: "+crash)
 			}
 			refusedExpected := pol == "noeviction" && uint64(usedBefore) >= limit
-			ctx.Class(fmt.Sprintf("%s|write|at-limit=%v|refused=%v", pol, uint64(usedBefore) >= limit, v.IsError()))
+			ctx.Class(fmt.Sprintf("%s|write|at-limit=%v|refused=%v|eviction-before-setExpiry=%v", pol, uint64(usedBefore) >= limit, v.IsError(), holdExpiry && vol))
 			if pol == "noeviction" {
 				if refusedExpected != v.IsError() {
 					return fail("admission", fmt.Sprintf("with usage %d and limit %d, %s replied %s (a write must be refused exactly while usage is at or above the limit)", usedBefore, limit, Step{Argv: argv}.String(), trunc(v.String(), 60)))
